@@ -590,6 +590,77 @@ def gen_varmodel(rng, mode):
     return {"locs": locs, "values": values, "at": at, "exact": exact}
 
 
+AXIS_NAMES = ["wght", "wdth", "opsz", "ital", "slnt", "XTRA", "GRAD"]
+HALF_GRID = [-1.0, -0.5, 0.5, 1.0]
+RICH_GRID = [-1.0, -0.75, -0.5, -0.25, -0.125, 0.125, 0.25, 0.375, 0.5, 0.625, 0.75, 0.875, 1.0]
+
+
+def gen_varmodelN(rng, mode):
+    """a 2-axis (sometimes 3-axis) master set: default, on-axis masters (extremes + intermediates), corners, intermediate
+    masters inside the quadrants; random order; dict key order random; explicit zeros random.  `exact`: every coordinate in
+    {0, +-1/2, +-1} (then all tent ratios are dyadic and VariationModel's double arithmetic is exact)."""
+    r = rng.random()
+    naxes = 3 if r < 0.25 else (1 if r < 0.3 else 2)
+    axes = rng.sample(AXIS_NAMES, naxes)
+    exact = rng.random() < 0.6
+    grid = HALF_GRID if exact else RICH_GRID
+    pts = set()
+    for a in range(naxes):                                    # on-axis masters
+        for v in rng.sample(grid, rng.randint(0, min(4, len(grid)))):
+            pts.add(tuple(v if i == a else 0.0 for i in range(naxes)))
+        if rng.random() < 0.7:
+            pts.add(tuple(rng.choice([-1.0, 1.0]) if i == a else 0.0 for i in range(naxes)))
+    for _ in range(rng.randint(0, 3)):                        # corners (of a face or of the cube)
+        k = rng.randint(2, naxes) if naxes >= 2 else 1
+        on = rng.sample(range(naxes), k)
+        pts.add(tuple(rng.choice([-1.0, 1.0]) if i in on else 0.0 for i in range(naxes)))
+    for _ in range(rng.choice([0, 1, 1, 2, 3, 5]) if mode == "normal" else rng.randint(2, 8)):     # intermediates off the axes
+        k = rng.randint(2, naxes) if naxes >= 2 else 1
+        on = rng.sample(range(naxes), k)
+        pts.add(tuple(rng.choice(grid) if i in on else 0.0 for i in range(naxes)))
+    if mode == "search" and naxes >= 2:                       # same-quadrant clusters: several masters narrow one box, ties of ratios
+        sx, sy = rng.choice([-1, 1]), rng.choice([-1, 1])
+        for _ in range(rng.randint(2, 5)):
+            pts.add(tuple([sx * abs(rng.choice(grid)), sy * abs(rng.choice(grid))] + [0.0] * (naxes - 2)))
+    pts.discard(tuple([0.0] * naxes))
+    pts = sorted(pts)
+    rng.shuffle(pts)
+    pts = pts[:rng.randint(1, 12)]
+    malformed = None
+    r = rng.random()
+    if r < 0.03:
+        malformed = "nobase"
+    else:
+        pts.insert(rng.randrange(len(pts) + 1), tuple([0.0] * naxes))
+        if r < 0.06:
+            malformed = "unique"
+    dense = rng.random() < 0.5                                # varLib passes every axis (explicit zeros); others pass sparse dicts
+    locs = []
+    for pt in pts:
+        items = [[axes[i], pt[i]] for i in range(naxes) if dense or pt[i] != 0.0]
+        rng.shuffle(items)
+        locs.append(items)
+    if malformed == "unique":
+        d = [list(e) for e in rng.choice(locs)]
+        rng.shuffle(d)
+        locs.insert(rng.randrange(len(locs) + 1), d)
+    ao = rng.choice([None, None, [], "full", "partial", "extra"])
+    if ao == "full":
+        ao = rng.sample(axes, naxes)
+    elif ao == "partial":
+        ao = rng.sample(axes, rng.randint(1, naxes))
+    elif ao == "extra":
+        ao = rng.sample(axes + ["ZZZZ"], rng.randint(1, naxes + 1))
+    values = [rng.choice([0, 10, -20, 100, 7, 33, 250, -4, 512, -96]) for _ in locs]
+    atgrid = [-1.0, -0.75, -0.5, -0.25, 0.0, 0.125, 0.25, 0.5, 0.625, 0.75, 1.0]
+    at = []
+    for _ in range(4):
+        items = [[a, rng.choice(atgrid)] for a in axes if rng.random() < 0.85]
+        rng.shuffle(items)
+        at.append(items)
+    return {"n": True, "locs": locs, "axisOrder": ao, "values": values, "at": at, "exact": exact, "malformed": malformed}
+
+
 # ------------------------------------------------------------------ serialisation of implementation values
 
 def _side(s):
@@ -654,10 +725,76 @@ def run_compat(case):
     return out
 
 
+def _nloc(d):
+    return [[a, rat(v)] for a, v in d.items()]
+
+
+def _vm_err(e):
+    msg = str(e)
+    if "must be unique" in msg:
+        return "unique"
+    if "Base master not found" in msg:
+        return "nobase"
+    return err_kind(e) + ":" + msg[:60]
+
+
+def run_varmodelN(it):
+    """n-axis VariationModel: the real class on doubles (as varLib uses it) and - the same code - on fractions.Fraction, where
+    the sort and the box narrowing (`ratio == bestRatio`) are exact.  order/supports are compared with the double run whenever it
+    takes the same decisions as the Fraction run (always on the half grid); otherwise (a tie of ratios that doubles do not see,
+    tag float-tie) with the Fraction run."""
+    from fractions import Fraction
+    from fontTools.varLib.models import VariationModel
+    locs = [dict((a, float(v)) for a, v in l) for l in it["locs"]]
+    ats = [dict((a, float(v)) for a, v in l) for l in it["at"]]
+    ao = it["axisOrder"]
+    tags = ["op:varmodel", "varmodel:n-axis", "varmodel:exact" if it["exact"] else "varmodel:inexact", "masters:%d" % len(locs),
+            "axes:%d" % len({a for l in locs for a in l}), "axisOrder:%s" % ("none" if ao is None else len(ao))]
+    inp = {"nlocs": [_nloc(l) for l in locs], "axisOrder": list(ao or []), "values": [rat(v) for v in it["values"]],
+           "at": [_nloc(l) for l in ats], "tol": rat(0) if it["exact"] else "1/1000000000"}
+
+    def observe(m, floatm):
+        deltas = floatm.getDeltas(it["values"])
+        return {"order": [_nloc(l) for l in m.locations],
+                "supports": [[[a, [rat(x) for x in t]] for a, t in s.items()] for s in m.supports],
+                "reverseMapping": list(m.reverseMapping),
+                "deltas": [rat(d) for d in deltas],
+                "interp": [rat(floatm.interpolateFromDeltas(x, deltas)) for x in ats],
+                "atMasters": [rat(floatm.interpolateFromDeltas(x, deltas)) for x in locs],
+                "fromMasters": [rat(floatm.interpolateFromMasters(x, it["values"])) for x in locs]}
+    try:
+        m = VariationModel(locs, axisOrder=ao)
+        obs = observe(m, m)
+        if not it["exact"]:
+            mf = VariationModel([dict((a, Fraction(v)) for a, v in l.items()) for l in locs], axisOrder=ao)
+            of = observe(mf, m)
+            if (of["order"], of["supports"], of["reverseMapping"]) != (obs["order"], obs["supports"], obs["reverseMapping"]):
+                tags.append("float-tie")
+                m2 = VariationModel(locs, axisOrder=ao)       # the double model, forced to the exact decisions, for the numbers
+                m2.locations, m2.supports = [dict((a, float(v)) for a, v in l.items()) for l in mf.locations], \
+                    [dict((a, tuple(float(x) for x in t)) for a, t in s.items()) for s in mf.supports]
+                m2.mapping, m2.reverseMapping = list(mf.mapping), list(mf.reverseMapping)
+                m2._computeDeltaWeights()
+                obs = observe(mf, m2)
+        inside = [sum(1 for v in l.values() if v != 0) for l in locs]
+        if any(k >= 2 for k in inside):
+            tags.append("off-axis-masters")
+        if any(k >= 2 and any(abs(v) not in (0.0, 1.0) for v in l.values()) for k, l in zip(inside, locs)):
+            tags.append("intermediate-master")
+    except Exception as e:
+        obs = {"err": _vm_err(e)}
+    tags.append("err:%s" % obs.get("err"))
+    return {"op": "varmodel", "in": inp, "obs": obs, "exact": it["exact"], "tags": tags,
+            "nontrivial": "err" not in obs and len(locs) >= 4 and "off-axis-masters" in tags}
+
+
 def run_varmodel(case):
     from fontTools.varLib.models import VariationModel
     out = []
     for it in case["items"]:
+        if it.get("n"):
+            out.append(run_varmodelN(it))
+            continue
         m = VariationModel([{"wght": l} for l in it["locs"]])
         deltas = m.getDeltas(it["values"])
         obs = {"order": [rat(l.get("wght", 0.0)) for l in m.locations],
@@ -960,6 +1097,19 @@ def agree(req, rep):
             if a[3] is not None and not (ok(a[3][0], b[3][0]) and ok(a[3][1], b[3][1])):
                 return False
         return not (rep.get("info") or {}).get("outlines")
+    if op == "varmodel" and "nlocs" in req["in"]:
+        if "err" in m or "err" in o:
+            return m.get("err") == o.get("err")
+        cl = lambda l: sorted((a, Fraction(v)) for a, v in l if Fraction(v) != 0)
+        cr = lambda r: sorted((a, tuple(Fraction(x) for x in t)) for a, t in r)
+        if [cl(l) for l in m["order"]] != [cl(l) for l in o["order"]]:
+            return False
+        if [cr(r) for r in m["supports"]] != [cr(r) for r in o["supports"]] or m["reverseMapping"] != o["reverseMapping"]:
+            return False
+        tol = Fraction(req["in"]["tol"])
+        close = lambda a, b: len(a) == len(b) and all(abs(Fraction(x) - Fraction(y)) <= tol for x, y in zip(a, b))
+        return close(m["deltas"], o["deltas"]) and close(m["interp"], o["interp"]) and close(m["atMasters"], o["atMasters"]) \
+            and close(m["atMasters"], o["fromMasters"])
     if op == "varmodel":
         if m["order"] != o["order"] or m["supports"] != o["supports"]:
             return False
